@@ -29,11 +29,15 @@ class Tracking(io.BytesIO):
         io.BytesIO.__init__(self, data)
         self.by_frame = []
         self.by_size = []
+        self.reads = []
         self.saw_scanner = False
 
     def read(self, n=-1):
+        at = self.tell()
         r = io.BytesIO.read(self, n)
         caller = sys._getframe(1).f_code.co_name
+        if n is not None and n >= 0:
+            self.reads.append((at, n, caller == '_read_until'))
         if caller == '_read_until':
             self.saw_scanner = True
         if n is not None and n >= 0 and len(r) < n:
@@ -47,10 +51,45 @@ class Tracking(io.BytesIO):
     def short(self):
         return self.by_frame if self.saw_scanner else self.by_size
 
+    def content_reads(self):
+        """(offset, n) of every content read"""
+        if self.saw_scanner:
+            return [(a, n) for a, n, scan in self.reads if not scan]
+        return [(a, n) for a, n, scan in self.reads if n != 96]
 
-def read_tracked(data):
+
+HEADER = re.compile(rb'^#(\.{0,3})(diffx|change|file|preamble|meta|diff):(?: (.*))?$')
+
+
+def frame(data):
+    """independent framing of a writer-produced file (LF headers, no blank lines between
+    sections): [(offset of the content, declared length)] per content section, until the
+    first line that is not a header with a decimal length"""
+    spans = []
+    pos = 0
+    while pos < len(data):
+        e = data.find(b'\n', pos)
+        if e < 0:
+            break
+        m = HEADER.match(data[pos:e])
+        if not m:
+            break
+        pos = e + 1
+        if m.group(2) in (b'preamble', b'meta', b'diff'):
+            lm = re.search(rb'(?:^|, )length=([0-9]+)(?:,|$)', m.group(3) or b'')
+            if not lm or len(lm.group(1)) > 9:
+                break
+            n = int(lm.group(1))
+            if n == 0:
+                break
+            spans.append((pos, n))
+            pos += n
+    return spans, pos == len(data)
+
+
+def read_tracked(data, stream=None):
     from pydiffx.reader import DiffXReader
-    s = Tracking(data)
+    s = stream if stream is not None else Tracking(data)
     recs = []
     err = None
     try:
@@ -121,8 +160,21 @@ class Spec(object):
     def oracle(self, case, impl_res):
         data, k = case
         cut = data[:k]
-        recs, err = read_tracked(cut)
+        stream = Tracking(cut)
+        recs, err = read_tracked(cut, stream)
         bad = []
+        # clause 1: the content of every section is exactly the declared number of bytes that
+        # follow its header line, whatever those bytes are
+        want, complete = frame(cut)
+        got = stream.content_reads()
+        for i in range(min(len(want), len(got))):
+            if want[i] != got[i]:
+                bad.append(('frame', 'content read %d is read(%d) at offset %d, but the section header ends at offset %d '
+                            'and declares length=%d' % (i, got[i][1], got[i][0], want[i][0], want[i][1]), False))
+                break
+        else:
+            if complete and err is None and len(got) != len(want):
+                bad.append(('frame', '%d content reads for %d content sections' % (len(got), len(want)), False))
         if err is not None and type(err).__name__ != 'DiffXParseError':
             bad.append(('exc', '%s escapes for a truncated / length-damaged file' % type(err).__name__, False))
         if k < len(data) or True:
